@@ -188,14 +188,15 @@ def sc_r2(cfg):
 
     def scenario(C):
         n = 2
+        shape = (n, 2) if cfg.get("multi") else (n,)
         if C.symbolic:
-            y, p = sx.cur().reals("y", n), sx.cur().reals("p", n)
-            for i in range(n):
+            y, p = sx.cur().reals("y", *shape), sx.cur().reals("p", *shape)
+            for i in numpy.ndindex(shape):
                 C.assume(y[i] > 0)
                 C.assume(p[i] > 0)
         else:
-            y = numpy.array([float(C.inputs.get(f"y_{i}", 1.5 + i)) for i in range(n)], dtype=object if False else float)
-            p = numpy.array([float(C.inputs.get(f"p_{i}", 2.5 + i)) for i in range(n)])
+            y = numpy.array([float(C.inputs.get("y" + "".join(f"_{k}" for k in i), 1.5 + sum(i) + 3 * i[-1])) for i in numpy.ndindex(shape)]).reshape(shape)
+            p = numpy.array([float(C.inputs.get("p" + "".join(f"_{k}" for k in i), 2.5 + sum(i) + 5 * i[-1])) for i in numpy.ndindex(shape)]).reshape(shape)
         tr, inv = OPT[cfg["tr"]], OPT[cfg["inv"]]
 
         def resolve(f):
@@ -222,15 +223,46 @@ def sc_r2(cfg):
         f, g = resolve(tr), resolve(inv)
         ea = f(y) if f is not None else y
         eb = g(p) if g is not None else p
-        for i in range(n):
-            C.eq(res.a[i], ea[i], "r2_score_comparable=r2_score(f(y),g(p))", detail=("y", i))
-            C.eq(res.b[i], eb[i], "r2_score_comparable=r2_score(f(y),g(p))", detail=("p", i))
+        C.true(numpy.shape(res.a) == shape and numpy.shape(res.b) == shape, "r2_score_comparable=r2_score(f(y),g(p))/shapes-kept", detail=(numpy.shape(res.a), shape))
+        if numpy.shape(res.a) == shape and numpy.shape(res.b) == shape:
+            for i in numpy.ndindex(shape):
+                C.eq(res.a[i], ea[i], "r2_score_comparable=r2_score(f(y),g(p))", detail=("y", i))
+                C.eq(res.b[i], eb[i], "r2_score_comparable=r2_score(f(y),g(p))", detail=("p", i))
         C.true(res.kw.get("sample_weight", "missing") is None and res.kw.get("multioutput") == "uniform_average", "keyword-arguments-forwarded")
 
     return scenario
 
 
-SCEN = dict(corr=sc_corr, r2=sc_r2)
+def sc_corr_real(cfg):
+    """concrete: the real scale / train_test_split / LinearRegression on float tables of every memory
+    layout -- the caller's table is never modified and the result is a matrix with entries in [0, 1]"""
+    cm = loader.load("metrics.correlations")
+    from sklearn.linear_model import LinearRegression
+
+    def scenario(C):
+        rng = numpy.random.RandomState(3 + C.choice("table", 2))
+        base = rng.randn(12, 3) * [1.0, 5.0, 0.2] + [0.0, 10.0, -3.0]
+        tables = {
+            "C-ordered": numpy.ascontiguousarray(base.copy()),
+            "F-ordered": numpy.asfortranarray(base.copy()),
+            "transposed-view": numpy.ascontiguousarray(base.T.copy()).T,
+            "float32": base.astype(numpy.float32),
+            "DataFrame": __import__("pandas").DataFrame(base.copy(), columns=["a", "b", "c"]),
+        }
+        for name, tab in tables.items():
+            snap = numpy.array(tab, dtype=float, copy=True)
+            numpy.random.seed(0)
+            cor = cm.non_linear_correlations(tab, LinearRegression(), draws=2, minmax=cfg["minmax"])
+            mats = cor if isinstance(cor, tuple) else (cor,)
+            C.true(numpy.array_equal(numpy.array(tab, dtype=float), snap), "input-not-modified", detail=name)
+            for m_ in mats:
+                a = numpy.asarray(m_, dtype=float)
+                C.true(a.shape == (3, 3) and bool(((a >= 0) & (a <= 1 + 1e-12)).all()), "entries-in-[0,1]", detail=name)
+
+    return scenario
+
+
+SCEN = dict(corr=sc_corr, r2=sc_r2, corr_real=sc_corr_real)
 
 
 def run_config(cfg):
@@ -247,6 +279,10 @@ def configs(tier):
         for minmax in (False, True):
             for nvar, rows, draws in ((1, 4, 1), (2, 4, 1), (1, 4, 2)) if tier == "quick" else ((1, 4, 1), (2, 4, 1), (1, 4, 2), (2, 4, 2), (1, 6, 3), (3, 4, 1)):
                 out.append(dict(kind="corr", learner=learner, minmax=minmax, nvar=nvar, rows=rows, draws=draws))
+    for minmax in (False, True):
+        out.append(dict(kind="corr_real", minmax=minmax))
+    for tr, inv in (("log", "exp"), ("square", "none"), ("none", "log"), ("exp", "log")):
+        out.append(dict(kind="r2", tr=tr, inv=inv, multi=True))
     for tr in ("none", "log", "exp", "square", "ident", "bad-int", "bad-str"):
         for inv in ("none", "log", "exp", "square", "ident", "bad-int"):
             out.append(dict(kind="r2", tr=tr, inv=inv))
